@@ -123,7 +123,7 @@ def check_resume(out: Outcome, tag: str, prog, ref, ref_digest, crash_digest, re
             return
 
 
-def explore(prog, mode, choices, kinds, out: Outcome, second_every: int, tear_limit: int):
+def explore(prog, mode, choices, kinds, out: Outcome, second_every: int, tear_limit: int, all_writes: bool = False, max_points: int = 0):
     base = boot.fresh_dir("c05")
     units = 0
     try:
@@ -145,7 +145,29 @@ def explore(prog, mode, choices, kinds, out: Outcome, second_every: int, tear_li
         first_call_seen_at = None
         plans = []
         if "kill" in kinds:
-            plans += [("kill", {"kill_at": n}, None) for n in range(n_events)]
+            points = list(range(n_events))
+            if not all_writes:
+                # runs of consecutive writes into the same file lead to crash states that differ only in the
+                # content of a file nobody reads before it is complete (temporary file, later renamed): keep the
+                # first, middle and last write of each run (the thorough tier keeps every write)
+                points = []
+                i = 0
+                while i < len(trace):
+                    kind, path = trace[i]
+                    if kind != "write" or not path.endswith(".tmp"):
+                        points.append(i)
+                        i += 1
+                        continue
+                    j = i
+                    while j + 1 < len(trace) and trace[j + 1] == [kind, path]:
+                        j += 1
+                    points += sorted({i, (i + j) // 2, j})
+                    i = j + 1
+            if max_points and len(points) > max_points:  # evenly spaced sample (generated programs, quick tier)
+                step = len(points) / max_points
+                points = sorted({points[int(i * step)] for i in range(max_points)})
+                out.labels.append("kill-points-sampled")
+            plans += [("kill", {"kill_at": n}, None) for n in points]
         if "tear" in kinds:
             writes: dict[str, list[int]] = {}
             for n, (kind, path) in enumerate(trace):
@@ -271,7 +293,7 @@ def enum_family(tier):
             for storage in storages:
                 for mode in ["seq", "sched"] if tier == "thorough" else ["seq"]:
                     for kinds in (["kill"], ["tear", "raise"]):
-                        yield {"family": name, "storage": storage, "mode": mode, "kinds": kinds}
+                        yield {"family": name, "storage": storage, "mode": mode, "kinds": kinds, "all_writes": tier == "thorough"}
 
     return gen
 
@@ -286,7 +308,7 @@ def body_family(data) -> Outcome:
         prog["storage"] = data["storage"]
     out.labels = [data["family"], "storage:" + data["storage"], data["mode"]] + data["kinds"]
     out.nontrivial = True
-    explore(prog, data["mode"], [2, 0, 1, 3, 1], data["kinds"], out, second_every=4, tear_limit=12)
+    explore(prog, data["mode"], [2, 0, 1, 3, 1], data["kinds"], out, second_every=4, tear_limit=12, all_writes=data.get("all_writes", False))
     return out
 
 
@@ -295,7 +317,8 @@ def body_generated(data) -> Outcome:
     prog = data["prog"]
     out.labels = [l for l in mp.labels(prog) if l.startswith("storage:")] + [data["mode"]] + data["kinds"]
     out.nontrivial = True
-    explore(prog, data["mode"], data["choices"], data["kinds"], out, second_every=7, tear_limit=6)
+    explore(prog, data["mode"], data["choices"], data["kinds"], out, second_every=data.get("second_every", 0), tear_limit=6,
+            max_points=data.get("max_points", 0))
     return out
 
 
@@ -306,12 +329,14 @@ def campaigns(tier):
             "mode": st.sampled_from(["seq", "sched"]),
             "choices": st.lists(st.integers(0, 5), min_size=1, max_size=6),
             "kinds": st.sampled_from([["kill"], ["raise", "tear"], ["kill"]]),
+            "max_points": st.just(80 if tier == "quick" else 0),
+            "second_every": st.just(0 if tier == "quick" else 9),
         }
     )
     return [
         Campaign("family", body_family, enumerate=enum_family(tier), quick=0, thorough=0, shards_quick=16, exhaustive=True,
                  describe="fixed family x storage x all kill points / torn writes / raise points (+ sampled second crashes)"),
-        Campaign("generated", body_generated, gen, quick=10, thorough=320, shards_quick=10,
+        Campaign("generated", body_generated, gen, quick=20, thorough=320, shards_quick=5,
                  describe="generated MapPrograms x all kill points or torn/raise points"),
     ]  # fmt: skip
 
